@@ -149,10 +149,12 @@ def _translate_stmt(st, aliases, where):
         if (isinstance(base, ast.Name) and base.id in ("logger", "logging")) or _is_self_attr(base, "logger") \
                 or _is_self_attr(base, "_logger"):
             return []
-    # idempotence guard:  if self._shutdown: return      (no effect on the first unload, which is what is modelled)
-    if isinstance(st, ast.If) and not st.orelse and _src(st.test) in ("self._shutdown", "self._shutdown is True") \
-            and len(st.body) == 1 and isinstance(st.body[0], ast.Return) and st.body[0].value is None:
-        return []
+    # early return on the task manager's flag:  if self._shutdown: return
+    # NOT an idempotence guard: the flag is also set by the public shutdown_task_manager() every overlay inherits, so the
+    # rest of the unload is skipped for the history "shutdown_task_manager(); unload()".  Translated, and rejected by scriptOk.
+    if isinstance(st, ast.If) and not st.orelse and "self._shutdown" in _src(st.test) and "not" not in _src(st.test) \
+            and any(isinstance(x, ast.Return) for x in st.body):
+        return [".returnIfDown"]
     # try: … finally: …  (no handlers): the statements of both blocks in order
     if isinstance(st, ast.Try) and not st.handlers and not st.orelse:
         ops = []
